@@ -40,7 +40,7 @@ LEDGER = {
     ('<adlt::plugins::export::ExportPlugin as adlt::plugins::plugin::Plugin>::process_msg', 'panic!'): 'reachable exactly when a message is delivered before its lifecycle is published (C06)',
     ('adlt::utils::lowmarkbufreader::LowMarkBufReader::<R>::new', 'assert!'): 'configuration: constructor arguments only (checked for production call sites under C04 M1)',
 }
-B3_ANCHOR = re.compile(r'^(adlt::lifecycle::|<adlt::lifecycle::|adlt::utils::buffer_sort_messages)')
+B3_ANCHOR = re.compile(r'^(adlt::lifecycle::|<adlt::lifecycle::|adlt::utils::buffer_sort_messages|adlt::dlt::control_msgs::|adlt::dlt::DltMessage::process_msg_arg_iter)')
 B3_LEDGER = {
     ('adlt::lifecycle::Lifecycle::resume_time', 'Add((*self).start_time, (*self).min_timestamp_us)', '_tmp'): 'subtrahend is 0 or start_time - resume_lc.start_time (taken only if resume_lc.start_time < start_time), hence <= start_time <= start_time + min_timestamp_us',
     ('adlt::lifecycle::parse_lifecycles_buffered_from_stream', '(*lc).max_timestamp_us', '(*lc).min_timestamp_us'): 'struct invariant min_timestamp_us <= max_timestamp_us of live lifecycles (new sets both equal, update only lowers min / raises max)',
@@ -196,6 +196,12 @@ def check_b2(lib, B2):
 
 def implies_ge(cond, truth, a, b):
     """does the known condition imply a >= b (unsigned)"""
+    # !x.is_empty()  =>  x.len() >= 1
+    if isinstance(cond, tuple) and cond[0] == 'call' and cond[1].endswith('::is_empty') and truth is False and cond[2]:
+        if isinstance(a, tuple) and a[0] == 'call' and a[1].endswith('::len') and a[2] and strip(a[2][0]) == strip(cond[2][0]):
+            kb = fold(b)
+            if kb is not None and kb <= 1:
+                return True
     if not (isinstance(cond, tuple) and cond[0] == 'bin') or truth is not True:
         return False
     op, x, y = cond[1], cond[2], cond[3]
@@ -245,9 +251,30 @@ def clamp_before(cfg, E, body, blk, a, b):
     return None
 
 
-def phi_bounded(cfg, E, body, a, b):
-    """b is a multi-definition local whose every definition is 0 or a value y stored under a <(=) guard y <= a"""
+def phi_bounded(cfg, E, body, a, b, blk=None):
+    """b is a multi-definition local whose every definition is 0 or a value y stored under a <(=) guard y <= a
+    (for an unnamed temp: every definition is a constant c and a dominating guard of the subtraction implies a >= c)"""
     if not (isinstance(b, tuple) and b[0] == 'place' and len(b) == 2):
+        return None
+    m = re.match(r'_(\d+)$', str(b[1]))
+    if m and blk is not None:
+        l = int(m.group(1))
+        defs = cfg.defs.get(l, [])
+        consts = []
+        for (bi, si, d) in defs:
+            if si == 'call':
+                return None
+            v = fold(E.rvalue(d.rv))
+            if v is None:
+                return None
+            consts.append(v)
+        if not consts:
+            return None
+        mx = max(consts)
+        for (c, truth, D) in guards.known(cfg, E, blk.i):
+            c2, t2 = guards.normalise(c, truth) if truth in (True, False) else (c, truth)
+            if implies_ge(c2, t2, a, ('const', mx)):
+                return 'subtrahend is one of the constants %s and %s is guarded to be >= %d' % (sorted(set(consts)), show(a)[:40], mx)
         return None
     ls = body.locals_named(b[1])
     if len(ls) != 1:
@@ -296,7 +323,7 @@ def check_b3(lib, B3):
             if why is None:
                 why = clamp_before(cfg, E, b, blk, a, bb)
             if why is None:
-                why = phi_bounded(cfg, E, b, a, bb)
+                why = phi_bounded(cfg, E, b, a, bb, blk)
             key = (b.path, re.sub(r'_\d+', '_tmp', show(a)[:60]), re.sub(r'_\d+', '_tmp', show(bb)[:60]))
             if why is None and key in B3_LEDGER:
                 why = 'ledger: ' + B3_LEDGER[key]
@@ -304,9 +331,9 @@ def check_b3(lib, B3):
                 B3.ok(sample={'function': b.path, 'at': b.loc(blk.term.sp), 'subtraction': '%s - %s' % (show(a)[:50], show(bb)[:50]), 'discharged_by': why})
             else:
                 B3.violation(('unguarded-subtraction', b.path, re.sub(r'_\d+', '_tmp', show(a)[:50]), re.sub(r'_\d+', '_tmp', show(bb)[:50])),
-                             'unsigned subtraction %s - %s at %s in time code has no dominating guard, clamp or ledger entry: a timestamp beyond the reception time (or similar) panics with overflow' % (show(a)[:60], show(bb)[:60], b.loc(blk.term.sp)),
+                             'unsigned subtraction %s - %s at %s in time/size code has no dominating guard, clamp or ledger entry: a crafted value (timestamp beyond the reception time, zero length, ...) panics with overflow' % (show(a)[:60], show(bb)[:60], b.loc(blk.term.sp)),
                              where=b.loc(blk.term.sp))
-    B3.floor('unsigned subtractions in lifecycle/sort code', n, 12)
+    B3.floor('unsigned subtractions in lifecycle/sort/control-message/argument-rendering code', n, 20)
 
 
 def check_b4(F, lib, B4):
